@@ -186,6 +186,16 @@ func (c rollCfg) run(o *rollObs) {
 	o.stopped = true
 }
 
+// aloneOf: "issued one at a time" - no other write call is in progress at any moment of w.
+func aloneOf(o *rollObs, w *rollWrite) bool {
+	for _, u := range o.writes {
+		if u != w && !(u.returned && u.endStep <= w.startStep) && !(u.startStep >= w.endStep && w.returned) {
+			return false
+		}
+	}
+	return true
+}
+
 // rollCheck: clauses are tagged by property; faults says whether I/O faults may have been injected
 // (then "nothing lost" only covers writes that were not hit by a fault).
 func rollCheck(prop string, c rollCfg, o *rollObs, x *zzvrt.Exec) (string, []zzvrt.Violation) {
@@ -346,12 +356,7 @@ func rollCheck(prop string, c rollCfg, o *rollObs, x *zzvrt.Exec) (string, []zzv
 			}
 			// "issued one at a time": no other write call is in progress at any moment of this one (always so for a single
 			// writer; with several writers, the calls made while the others are between calls or done)
-			alone := true
-			for _, u := range o.writes {
-				if u != w && !(u.returned && u.endStep <= w.startStep) && !(u.startStep >= w.endStep && w.returned) {
-					alone = false
-				}
-			}
+			alone := aloneOf(o, w)
 			if alone && !faulted && ft.Before(w.startAt.Truncate(c.iv()).Truncate(time.Second)) /* names have one-second resolution */ {
 				add("C13", "stale-file", k, fmt.Sprintf("write %q was issued at %s with no other write in progress and landed in %s (an earlier interval)", w.id, w.startAt.Format("150405"), locs[0]))
 			}
@@ -446,6 +451,12 @@ func c19Check(prop, key string, single bool, ivl time.Duration, o *rollObs, x *z
 			iv := call.At.Truncate(ivl)
 			for _, w := range o.writes {
 				if w.startStep <= call.Step || !w.startAt.Truncate(ivl).After(iv) {
+					continue
+				}
+				if !single && !aloneOf(o, w) {
+					// several writers, and another write was in progress during this one: which of them makes the attempt, and
+					// whether a rotation may wait for a write in flight to finish, is the implementation's business; the
+					// statement is checked on the calls that had the appender to themselves
 					continue
 				}
 				retried := false
